@@ -8,6 +8,7 @@ functions, redundant LMIs, useless partitions, one-block partitions) are run wit
 example: the value must not move.
 """
 import importlib
+import inspect
 import math
 
 from hypothesis import strategies as st
@@ -39,6 +40,7 @@ def patch_solver():
     orig = PEP.solve
 
     def solve(self, *a, **k):
+        STATUS.setdefault("received", []).append({"solver": k.get("solver"), "wrapper": k.get("wrapper", a[0] if a else None)})
         if k.get("solver") is None:
             k["solver"] = "CLARABEL"
         try:
@@ -94,8 +96,12 @@ def fixed_cases(tier):
 
 def call(module, fname, kwargs, wrapper="cvxpy"):
     STATUS["all"] = []
+    STATUS["received"] = []
     mod = importlib.import_module(module)
     fn = getattr(mod, fname)
+    sig = inspect.signature(fn).parameters
+    STATUS["asked"] = {"solver": "CLARABEL" if ("solver" in sig and wrapper == "cvxpy") else None,
+                       "wrapper": wrapper if "wrapper" in sig else None}
     with prog.quiet():
         try:
             if wrapper == "mosek":
@@ -104,9 +110,22 @@ def call(module, fname, kwargs, wrapper="cvxpy"):
                 with mosek_env.active():
                     out = fn(verbose=-1, wrapper="mosek", **kwargs)
                 return out, None
-            return fn(verbose=-1, **kwargs), None
+            extra = {"solver": "CLARABEL", "wrapper": "cvxpy"} if "solver" in sig and "wrapper" in sig else {}
+            return fn(verbose=-1, **extra, **kwargs), None
         except Exception as exc:  # noqa
             return None, exc
+
+
+def back_end_honoured(name, fname, ctx):
+    """'both back-ends': the wrapper and solver an example is called with must be the ones its PEP.solve call receives"""
+    asked = STATUS.get("asked", {})
+    for got in STATUS.get("received", []):
+        for key in ("wrapper", "solver"):
+            have = got.get(key) if (key == "solver" or got.get(key) is not None) else "cvxpy"     # PEP.solve's default wrapper
+            if asked.get(key) is not None and have != asked[key]:
+                ctx.fail("back-end-argument-dropped:%s:%s" % (name, key),
+                         "%s was called with %s=%r but its PEP.solve call received %s=%r: the example cannot be run on the "
+                         "requested back-end" % (fname, key, asked[key], key, got.get(key)))
 
 
 def check_rate(case, ctx):
@@ -122,6 +141,7 @@ def check_rate(case, ctx):
             return
         raise exc
     wc, theory = out
+    back_end_honoured(name, fname, ctx)
     ctx.label("example:" + name)
     ctx.label("wrapper:" + wrapper)
     if wrapper == "cvxpy" and any(s != "optimal" for s in STATUS["all"]):
